@@ -42,6 +42,7 @@ structure Params where
   nbsOff : Nat         -- NUM_BITS_SET_OFFSET_BYTES
   bitsOff : Nat        -- BIT_ARRAY_OFFSET_BYTES
   maxBits : Nat        -- MAX_FILTER_SIZE_BITS
+deriving DecidableEq, Repr
 
 /-- the published layout -/
 def refParams : Params :=
